@@ -24,25 +24,26 @@ type UParam struct {
 }
 
 type UObj struct {
-	ID            int // identity class: one per distinct *types.Type pointer
-	Pkg, Name     string
-	Kind          string
-	Elem, Key     *UObj
-	Under, Recv   *UObj
-	Len           int64
-	Members       []UMember
-	Methods       map[string]*UObj
-	HasSig        bool
-	Params        []UParam
-	Results       []UParam
-	Variadic      bool
-	TypeParams    map[string]*UObj
-	ConstVal      *string
-	Prim, Assign  bool
-	AnonStruct    bool
-	Comparable    *bool // v2 only
-	CommentLines  []string
-	SecondClosest []string
+	ID               int // identity class: one per distinct *types.Type pointer
+	Pkg, Name        string
+	Kind             string
+	Elem, Key        *UObj
+	Under, Recv      *UObj
+	Len              int64
+	Members          []UMember
+	Methods          map[string]*UObj
+	HasSig           bool
+	Params           []UParam
+	Results          []UParam
+	Variadic         bool
+	TypeParams       map[string]*UObj
+	ConstVal         *string
+	Prim, Assign     bool
+	AnonStruct       bool
+	Comparable       *bool // v2 only
+	ComparablePanics bool  // v2 only: IsComparable panicked
+	CommentLines     []string
+	SecondClosest    []string
 }
 
 type UPkg struct {
@@ -496,6 +497,9 @@ func UniverseOracles(prop string, snap *USnap, c *Checked, prog *Program, reques
 			}
 			if o.Prim != isBasic {
 				u.fail("primitive-mismatch", fmt.Sprintf("%s: IsPrimitive=%v", g, o.Prim))
+			}
+			if o.ComparablePanics {
+				u.fail("comparable-unanswered", fmt.Sprintf("%s: IsComparable panics (the loader left no Go type in the object)", g))
 			}
 			if o.Comparable != nil && *o.Comparable != gotypes.Comparable(g) {
 				u.fail("comparable-mismatch", fmt.Sprintf("%s: IsComparable=%v, Go says %v", g, *o.Comparable, gotypes.Comparable(g)))
